@@ -129,6 +129,16 @@ func TestVerif_C15(t *testing.T) {
 		if r.chance(50) {
 			fnName, anName = "auto", "auto"
 		}
+		// a case-preserving sender normalization, an entitled envelope sender and the same address in another
+		// letter case in From: equal as addresses go, but not what the user is entitled to
+		spelling := r.chance(15)
+		if spelling {
+			fnName = []string{"noop", "precis", "precis_email"}[r.intn(3)]
+			own = []string{"alice@example.org", "alice@example.org"}
+			if auth == "" {
+				auth = "alice"
+			}
+		}
 		c := &Check{instName: "verif", log: log.Logger{Out: log.NopOutput{}}, checkHeader: !r.chance(8),
 			unauthAction: pickAct(), noMatchAction: pickAct(), errAction: pickAct(),
 			fromNorm: authz.NormalizeFuncs[fnName], authNorm: authz.NormalizeFuncs[anName]}
@@ -200,6 +210,9 @@ func TestVerif_C15(t *testing.T) {
 		if r.chance(4) {
 			mf = ""
 		}
+		if spelling {
+			mf = "alice@example.org"
+		}
 		// header
 		fmtAddr := func(a string) string {
 			switch r.intn(7) {
@@ -221,6 +234,16 @@ func TestVerif_C15(t *testing.T) {
 		var lines []string
 		fromField := func() string {
 			a, _ := pick()
+			if mf != "" && r.chance(30) { // the envelope sender in another spelling
+				switch r.intn(3) {
+				case 0:
+					a = strings.ToUpper(mf[:1]) + mf[1:]
+				case 1:
+					a = strings.ToUpper(mf)
+				default:
+					a = mf
+				}
+			}
 			switch r.intn(10) {
 			case 0, 4:
 				b, _ := pick()
